@@ -277,6 +277,23 @@ Definition regex_errors (d : dir) : list string :=
                        else if has_prefix "~" (d_name e) then bad (drop 1 (d_name e)) else []) (block_of d)
   else [].
 
+(* ---------------------------------------------------------------- map entries *)
+
+Definition nodup_str (l : list string) : list string :=
+  fold_right (fun x acc => if mem_str x acc then acc else x :: acc) [] l.
+
+
+(* "conflicting parameter": the same source value twice in one map (with "hostnames" the names are compared without case) *)
+Definition map_dup_errors (d : dir) : list string :=
+  if seqb (d_name d) "map" then
+    let es := filter (fun e => negb (mem_str (d_name e) ["hostnames"; "volatile"; "include"])) (block_of d) in
+    let ci := existsb (fun e => seqb (d_name e) "hostnames") (block_of d) in
+    let key e := if ci then lower (d_name e) else d_name e in
+    map (fun k => "conflicting parameter in map: " ^^ k ^^ " ->" ^^
+                  fold_right (fun e acc => " " ^^ first_arg e ^^ acc) "" (filter (fun e => seqb (key e) k) es))
+        (nodup_str (dups (map key es)))
+  else [].
+
 (* ---------------------------------------------------------------- split_clients, sockets *)
 
 Definition split_errors (d : dir) : list string :=
@@ -354,7 +371,7 @@ Fixpoint wf_block (fuel : nat) (e : env) (ctx : list string) (ds : list dir) : l
   | S f =>
       block_dup_errors ds ++
       flat_map (fun d =>
-        directive_errors ctx d ++ regex_errors d ++ split_errors d ++ socket_errors d ++ ref_errors e d ++
+        directive_errors ctx d ++ regex_errors d ++ split_errors d ++ map_dup_errors d ++ socket_errors d ++ ref_errors e d ++
         match d_block d with
         | Some body => if data_block (d_name d) then [] else wf_block f e (enter_ctx ctx (d_name d)) body
         | None => []
@@ -387,9 +404,6 @@ Definition listen_name_pairs (ds : list dir) : list string :=
     let names := match server_names s with [] => [""] | l => l end in
     flat_map (fun l => map (fun n => first_arg l ^^ sep ^^ n) names) (dirs_named "listen" (block_of s)))
     (dirs_named "server" ds).
-
-Definition nodup_str (l : list string) : list string :=
-  fold_right (fun x acc => if mem_str x acc then acc else x :: acc) [] l.
 
 Definition pair_dup_errors (ds : list dir) : list string :=
   (* the same server may legitimately list one name once per listen line; duplicates across servers count *)
